@@ -41,6 +41,12 @@ pub const DEPTH_OPS: &[&str] = &[
     "exists_keys_deep",
     "inspect_deep",
     "type_of_text_deep",
+    // argument combinations that are decided from the outer container (or spliced as raw bytes) today
+    "object_insert_mixed_deep",
+    "array_insert_mixed_deep",
+    "compare_keys_differ_deep",
+    "compare_first_differs_deep",
+    "contains_size_guard_deep",
 ];
 pub const SHAPES: &[&str] = &["arrays", "objects", "alternating"];
 pub const LADDER: &[u64] = &[1, 2, 10, 100, 1_000, 10_000, 100_000, 300_000];
@@ -411,6 +417,49 @@ fn run_depth_op(op: &str, shape: &str, depth: u64) -> String {
             let b = deep_jsonb(shape, depth);
             let _ = (jsonb::type_of(&b).is_ok(), jsonb::array_length(&b), jsonb::is_array(&b), jsonb::is_object(&b), jsonb::is_null(&b), jsonb::as_str(&b).is_some(), jsonb::as_number(&b).is_some());
             "completed".into()
+        }
+        // a JSON-text target with a deep JSONB value to insert: the JSONB argument is spliced in as raw bytes today
+        "object_insert_mixed_deep" => {
+            let b = deep_jsonb(shape, depth);
+            let mut out = vec![];
+            res_name(jsonb::object_insert(b"{\"a\":1}", "k", &b, true, &mut out))
+        }
+        "array_insert_mixed_deep" => {
+            let b = deep_jsonb(shape, depth);
+            let mut out = vec![];
+            res_name(jsonb::array_insert(b"[1,2]", 1, &b, &mut out))
+        }
+        // {"a": D} vs {"b": D}: decided by the keys; [1, D] vs [2, D]: decided by the first element
+        "compare_keys_differ_deep" => {
+            let d = deep_jsonb(shape, depth);
+            let mut l = vec![];
+            let mut r = vec![];
+            let (okl, okr) = (jsonb::build_object([("a", d.as_slice())], &mut l).is_ok(), jsonb::build_object([("b", d.as_slice())], &mut r).is_ok());
+            if !(okl && okr) { "error:build".into() } else { res_name(jsonb::compare(&l, &r)) }
+        }
+        "compare_first_differs_deep" => {
+            let d = deep_jsonb(shape, depth);
+            let one = [0x20u8, 0, 0, 0, 0x20, 0, 0, 2, 0x50, 1];
+            let two = [0x20u8, 0, 0, 0, 0x20, 0, 0, 2, 0x50, 2];
+            let mut l = vec![];
+            let mut r = vec![];
+            let (okl, okr) = (jsonb::build_array([&one[..], d.as_slice()], &mut l).is_ok(), jsonb::build_array([&two[..], d.as_slice()], &mut r).is_ok());
+            if !(okl && okr) { "error:build".into() } else { res_name(jsonb::compare(&l, &r)) }
+        }
+        // the right object has more members than the left: decided from the two headers today
+        "contains_size_guard_deep" => {
+            let d = deep_jsonb(shape, depth);
+            let null = [0x20u8, 0, 0, 0, 0, 0, 0, 0];
+            let mut l = vec![];
+            let mut r = vec![];
+            let (okl, okr) = (jsonb::build_object([("a", d.as_slice())], &mut l).is_ok(), jsonb::build_object([("a", d.as_slice()), ("b", &null[..])], &mut r).is_ok());
+            if !(okl && okr) {
+                "error:build".into()
+            } else if jsonb::contains(&l, &r) {
+                "error:contains_true".into()
+            } else {
+                "completed".into()
+            }
         }
         // type_of decides JSON text by its first byte: no parse, no recursion today
         "type_of_text_deep" => {
@@ -959,7 +1008,7 @@ impl Scenario for Limits {
     }
 
     fn rule(&self) -> String {
-        "One child process per case. Depth cases: operations {parse, drop, encode, decode x2, render x2, compare, comparable encoding, path query x4, path parse, the index-taking functions and eight further byte-level functions that are shallow or iterative today} x shapes {arrays, objects, alternating} x \
+        "One child process per case. Depth cases: operations {parse, drop, encode, decode x2, render x2, compare, comparable encoding, path query x4, path parse, the index-taking functions and the further byte-level functions and argument combinations that are shallow or iterative today} x shapes {arrays, objects, alternating} x \
          the depth ladder {1,2,10,100,1e3,1e4,1e5,3e5} x stack budgets {8 MiB, 2 MiB} x builds {dev = unoptimised with overflow checks and debug assertions, checked = optimised with the same checks, shipped = release defaults}, all enumerated, \
          plus seeded log-uniform depths between the rungs with stacks {1,2,4,8 MiB}. Extreme-argument cases: {delete_by_index, array_insert, delete_by_keypath, get_by_keypath, $[i], \
          $[last-i], $[last+i], $[a to b]} x {MIN, MIN+1, -len-1, -len, -1, 0, len-1, len, len+1, MAX-1, MAX} x len {0,1,3} x {JSONB, JSON text} x all three builds, all enumerated, plus seeded i32s. \
